@@ -284,7 +284,6 @@ func (mq *memtableQueue) add(vector []float32, text string, metadata map[string]
 
 	mutable := mq.mutable
 	mq.mu.Unlock()
-	verifPoint("memtableQueue:add:unlocked")
 
 	return mutable.add(vector, text, metadata)
 }
@@ -300,7 +299,6 @@ func (mq *memtableQueue) addWithID(id uint32, vector []float32, text string, met
 
 	mutable := mq.mutable
 	mq.mu.Unlock()
-	verifPoint("memtableQueue:addWithID:unlocked")
 
 	return mutable.addWithID(id, vector, text, metadata)
 }
